@@ -19,6 +19,51 @@ pub enum ReqSpec {
     /// WriteMultipleRegisters / ReadWriteMultipleRegisters around a `Data` taken from a DECODED response
     WmrX(u16, Vec<u8>),
     RwmX(u16, u16, u16, Vec<u8>),
+    /// write requests around a container taken from ANY decoded PDU (see `Src`)
+    WmcS(u16, Src),
+    WmrS(u16, Src),
+    RwmS(u16, u16, u16, Src),
+}
+
+/// a container taken from a decoded PDU: `P<hex>` = response bytes, `Q<hex>` = request bytes
+/// (the containers are `Copy` and the enum variants public, so any of them can be placed in any variant)
+#[derive(Clone, Debug)]
+pub struct Src(pub char, pub Vec<u8>);
+
+pub fn parse_src(s: &str) -> Option<Src> {
+    let c = s.chars().next()?;
+    if c != 'P' && c != 'Q' {
+        return None;
+    }
+    Some(Src(c, parse_hex(s.get(1..)?)?))
+}
+
+pub fn src_coils(s: &Src) -> Option<Coils<'_>> {
+    if s.0 == 'P' {
+        match Response::try_from(&s.1[..]) {
+            Ok(Response::ReadCoils(c)) | Ok(Response::ReadDiscreteInputs(c)) => Some(c),
+            _ => None,
+        }
+    } else {
+        match Request::try_from(&s.1[..]) {
+            Ok(Request::WriteMultipleCoils(_, c)) => Some(c),
+            _ => None,
+        }
+    }
+}
+
+pub fn src_data(s: &Src) -> Option<Data<'_>> {
+    if s.0 == 'P' {
+        match Response::try_from(&s.1[..]) {
+            Ok(Response::ReadHoldingRegisters(d)) | Ok(Response::ReadInputRegisters(d)) | Ok(Response::ReadWriteMultipleRegisters(d)) => Some(d),
+            _ => None,
+        }
+    } else {
+        match Request::try_from(&s.1[..]) {
+            Ok(Request::WriteMultipleRegisters(_, d)) | Ok(Request::ReadWriteMultipleRegisters(_, _, _, d)) => Some(d),
+            _ => None,
+        }
+    }
 }
 
 #[derive(Clone, Debug)]
@@ -33,6 +78,9 @@ pub enum RspSpec {
     Rsi(Vec<u8>, bool),
     Cus(FunctionCode, u8, Vec<u8>),
     Dec(Vec<u8>),
+    /// read responses around a container taken from any decoded PDU
+    CoilsS(&'static str, Src), // RC RDI
+    RegsS(&'static str, Src),  // RIR RHR RWM
 }
 
 #[derive(Clone, Debug)]
@@ -141,6 +189,9 @@ pub fn parse_req<'a>(t: &'a [&'a str]) -> Option<(ReqSpec, &'a [&'a str])> {
         "DEC" => (ReqSpec::Dec(parse_hex(t.get(1)?)?), t.get(2..)?),
         "WMRX" => (ReqSpec::WmrX(u(1)?, parse_hex(t.get(2)?)?), t.get(3..)?),
         "RWMX" => (ReqSpec::RwmX(u(1)?, u(2)?, u(3)?, parse_hex(t.get(4)?)?), t.get(5..)?),
+        "WMCS" => (ReqSpec::WmcS(u(1)?, parse_src(t.get(2)?)?), t.get(3..)?),
+        "WMRS" => (ReqSpec::WmrS(u(1)?, parse_src(t.get(2)?)?), t.get(3..)?),
+        "RWMS" => (ReqSpec::RwmS(u(1)?, u(2)?, u(3)?, parse_src(t.get(4)?)?), t.get(5..)?),
         _ => return None,
     })
 }
@@ -168,6 +219,11 @@ pub fn parse_rsp<'a>(t: &'a [&'a str]) -> Option<(RspSpec, &'a [&'a str])> {
             (RspSpec::Cus(fc, b, parse_hex(t.get(2)?)?), t.get(3..)?)
         }
         "DEC" => (RspSpec::Dec(parse_hex(t.get(1)?)?), t.get(2..)?),
+        "RCS" => (RspSpec::CoilsS("RC", parse_src(t.get(1)?)?), t.get(2..)?),
+        "RDIS" => (RspSpec::CoilsS("RDI", parse_src(t.get(1)?)?), t.get(2..)?),
+        "RIRS" => (RspSpec::RegsS("RIR", parse_src(t.get(1)?)?), t.get(2..)?),
+        "RHRS" => (RspSpec::RegsS("RHR", parse_src(t.get(1)?)?), t.get(2..)?),
+        "RWMS" => (RspSpec::RegsS("RWM", parse_src(t.get(1)?)?), t.get(2..)?),
         _ => return None,
     })
 }
@@ -245,6 +301,9 @@ pub fn with_req<R>(spec: &ReqSpec, k: impl for<'a> FnOnce(Option<Request<'a>>) -
             }
             _ => k(None),
         },
+        ReqSpec::WmcS(a, s) => k(src_coils(s).map(|c| Request::WriteMultipleCoils(*a, c))),
+        ReqSpec::WmrS(a, s) => k(src_data(s).map(|d| Request::WriteMultipleRegisters(*a, d))),
+        ReqSpec::RwmS(ra, rq, wa, s) => k(src_data(s).map(|d| Request::ReadWriteMultipleRegisters(*ra, *rq, *wa, d))),
     }
 }
 
@@ -284,6 +343,12 @@ pub fn with_rsp<R>(spec: &RspSpec, k: impl for<'a> FnOnce(Option<Response<'a>>) 
             Ok(v) => k(Some(v)),
             Err(_) => k(None),
         },
+        RspSpec::CoilsS(n, s) => k(src_coils(s).map(|c| if *n == "RC" { Response::ReadCoils(c) } else { Response::ReadDiscreteInputs(c) })),
+        RspSpec::RegsS(n, s) => k(src_data(s).map(|d| match *n {
+            "RIR" => Response::ReadInputRegisters(d),
+            "RHR" => Response::ReadHoldingRegisters(d),
+            _ => Response::ReadWriteMultipleRegisters(d),
+        })),
     }
 }
 
